@@ -630,6 +630,65 @@ static bool do_op(Cur& c, std::ostream& o)
       }
     }); });
   }
+  else if(op == "lmove")
+  {
+    // SparseLayout special members: move construction into a free layout slot, move assignment onto a live one
+    int d = (int)c.i64(), src = (int)c.i64();
+    if(d < 0 || d >= NLAY || src < 0 || src >= NLAY || !lays[src].alive()) bad("lmove: layout");
+    LBox& ls = lays[src]; LBox& ld = lays[d];
+    if(ld.alive() && d != src && (ld.lk != ls.lk || ld.it != ls.it)) bad("lmove: type mismatch");
+    with_it(ls.it, [&](auto itag)
+    {
+      typedef typename decltype(itag)::type I;
+      auto go = [&](auto* dummy)
+      {
+        typedef typename std::remove_pointer<decltype(dummy)>::type LT;
+        LT& S = *static_cast<LT*>(ls.obj);
+        if(!ld.alive()) { ld.obj = new LT(std::move(S)); ld.lk = ls.lk; ld.it = ls.it; }
+        else *static_cast<LT*>(ld.obj) = std::move(S);
+      };
+      if(ls.lk == 0) go((SparseLayout<I, SparseLayoutId::lt_csr>*)nullptr);
+      else go((SparseLayout<I, SparseLayoutId::lt_banded>*)nullptr);
+    });
+  }
+  else if(op == "lvec")
+  {
+    // every live layout travels through a std::vector (push_back + reallocations = move constructions of the stored
+    // objects) or through a by-value class member, and back into its slot
+    int k = (int)c.i64();
+    for(int l = 0; l < NLAY; ++l)
+    {
+      LBox& b = lays[l];
+      if(!b.alive()) continue;
+      with_it(b.it, [&](auto itag)
+      {
+        typedef typename decltype(itag)::type I;
+        auto go = [&](auto* dummy)
+        {
+          typedef typename std::remove_pointer<decltype(dummy)>::type LT;
+          LT*& P = reinterpret_cast<LT*&>(b.obj);
+          if(k == 0)
+          {
+            std::vector<LT> v;
+            v.push_back(LT());
+            v.push_back(std::move(*P));
+            for(int r = 0; r < 5; ++r) v.push_back(LT());   // reallocations move the stored layouts
+            *P = std::move(v[1]);                           // move assignment onto the moved-from object
+          }
+          else
+          {
+            struct Holder { LT lay; explicit Holder(LT&& x) : lay(std::move(x)) {} };
+            Holder h(std::move(*P));
+            Holder h2(std::move(h.lay));
+            delete P;
+            P = new LT(std::move(h2.lay));
+          }
+        };
+        if(b.lk == 0) go((SparseLayout<I, SparseLayoutId::lt_csr>*)nullptr);
+        else go((SparseLayout<I, SparseLayoutId::lt_banded>*)nullptr);
+      });
+    }
+  }
   else if(op == "ldrop")
   {
     int l = (int)c.i64();
